@@ -29,7 +29,7 @@ FAULTS_A = ["none", "missing_dimension", "missing_excitation", "custom_raises", 
             "custom_list", "custom_unsupported_field", "custom_no_func", "pixel_agg_badname", "pixel_agg_ndim",
             "pixel_agg_size", "pixel_agg_isscalar", "pixel_shapes_differ", "bad_output", "bad_in_out",
             "kwargs_in_oo", "empty_sources", "empty_observers", "bad_observer_obj", "bad_source_obj",
-            "dataframe_ok", "functional_readonly", "sumup_squeeze"]
+            "dataframe_ok", "functional_readonly", "sumup_squeeze", "core_readonly"]
 
 
 def plan(tier):
@@ -62,6 +62,46 @@ def make_custom(mode, fire_at):
     return field_func, state
 
 
+CORE_FUNCS = ["current_circle_Hfield", "current_polyline_Hfield", "dipole_Hfield", "magnet_cuboid_Bfield",
+              "magnet_cylinder_axial_Bfield", "magnet_cylinder_diametral_Hfield", "magnet_cylinder_segment_Hfield",
+              "magnet_sphere_Bfield", "triangle_Bfield"]
+
+
+def core_args(r):
+    """(name, [float64 arrays]) - valid vectorised input of one magpylib.core function, n rows, observers in all
+    octants (the implementations fold observers into one octant / quadrant internally)"""
+    name = str(r.choice(CORE_FUNCS))
+    n = int(r.integers(1, 6))
+    obs = r.normal(size=(n, 3)) * 2
+    pos = lambda *sh: 10.0 ** r.uniform(-0.5, 0.5, size=(n,) + sh)   # noqa: E731
+    vec = lambda: r.normal(size=(n, 3))   # noqa: E731
+    if name == "current_circle_Hfield":
+        a = [pos(), np.abs(r.normal(size=n)) * 2, r.normal(size=n), r.normal(size=n)]
+    elif name == "current_polyline_Hfield":
+        a = [obs, vec(), vec(), r.normal(size=n)]
+    elif name == "dipole_Hfield":
+        a = [obs, vec()]
+    elif name == "magnet_cuboid_Bfield":
+        a = [obs, pos(3), vec()]
+    elif name == "magnet_cylinder_axial_Bfield":
+        a = [pos(), np.abs(r.normal(size=n)) * 2, r.normal(size=n)]
+    elif name == "magnet_cylinder_diametral_Hfield":
+        a = [pos(), np.abs(r.normal(size=n)) * 2, r.normal(size=n), r.uniform(-np.pi, np.pi, size=n)]
+    elif name == "magnet_cylinder_segment_Hfield":
+        r1 = r.uniform(0.1, 1, size=n)
+        p1 = r.uniform(-np.pi, np.pi, size=n)
+        z1 = r.normal(size=n)
+        dim = np.c_[r1, r1 + r.uniform(0.2, 1, size=n), p1, p1 + r.uniform(0.3, 5, size=n), z1, z1 + r.uniform(0.2, 2, size=n)]
+        o = np.c_[r.uniform(0.05, 3, size=n), r.uniform(-np.pi, np.pi, size=n), r.normal(size=n) * 2]
+        mag = np.c_[r.uniform(1e4, 1e6, size=n), r.uniform(-np.pi, np.pi, size=n), r.uniform(0, np.pi, size=n)]
+        a = [o, dim, mag]
+    elif name == "magnet_sphere_Bfield":
+        a = [obs, pos(), vec()]
+    else:
+        a = [obs, r.normal(size=(n, 3, 3)), vec()]
+    return name, [np.array(x, dtype=float) for x in a]
+
+
 def gen_scenario(rng, fault):
     """specs only (JSON-able)"""
     L = int(rng.choice([2, 3, 5]))
@@ -91,7 +131,7 @@ def gen_scenario(rng, fault):
                 c["position"], c["orientation"] = objs.rand_path(rng, L)
     return {"sources": srcs, "sensors": sens, "tiling": tiling, "fault": fault, "L": L,
             "field": str(rng.choice(list("BHJM"))), "fire_at": int(rng.integers(1, 5)),
-            "style_init": bool(rng.random() < 0.5)}
+            "style_init": bool(rng.random() < 0.5), "salt": int(rng.integers(2**31))}
 
 
 class Setup:
@@ -177,7 +217,7 @@ class Setup:
             # every class of the functional interface with per-instance (n,..) float64 arrays
             from vfw.props import c07
 
-            r = np.random.default_rng(sc["L"] * 7 + sc["fire_at"])
+            r = np.random.default_rng(sc.get("salt", sc["L"] * 7 + sc["fire_at"]))
             cls = str(r.choice(list(c07.PARAMS)))
             inst = []
             base = objs.rand_source(r, cls)
@@ -190,9 +230,17 @@ class Setup:
                 inst.append(x)
             kwf = {k: np.array(v, dtype=float) for k, v in c07.func_kwargs(cls, inst, False).items()}
             kwf["position"] = np.array([x["position"][0] for x in inst], dtype=float)
+            if "polarization" in kwf and "salt" in sc and r.random() < 0.5:   # the other documented excitation input
+                kwf["magnetization"] = kwf.pop("polarization") / magpy.mu_0
             obs_f = r.normal(size=(3, 3)) * 3
             self.func_call = (cls, obs_f, kwf)
             self.arrays = [obs_f] + list(kwf.values())
+            if sc["fire_at"] % 2:
+                for a in self.arrays:
+                    a.flags.writeable = False
+        elif fault == "core_readonly":
+            self.core_call = core_args(np.random.default_rng(sc.get("salt", 0)))
+            self.arrays = list(self.core_call[1])
             if sc["fire_at"] % 2:
                 for a in self.arrays:
                     a.flags.writeable = False
@@ -210,6 +258,9 @@ class Setup:
     def call(self):
         import magpylib as magpy
 
+        if self.sc["fault"] == "core_readonly":
+            name, args = self.core_call
+            return getattr(magpy.core, name)(*args)
         if self.sc["fault"] == "functional_readonly" and getattr(self, "func_call", None):
             cls, o, kwf = self.func_call
             return getattr(magpy, "get" + ("B" if cls in ("Circle", "Polyline", "Dipole") and self.F in "JM" else self.F))(cls, o, **kwf)
@@ -283,7 +334,7 @@ def run_one(ctx, sc, inject=None):
             pr._apply(code)
     after = st.snapshot()
     case = {"scenario": sc, "inject": None if inject is None else [inject[0].__name__, inject[1], inject[2]]}
-    if sc["fault"] == "functional_readonly" and inject is None and raised is not None:
+    if sc["fault"] in ("functional_readonly", "core_readonly") and inject is None and raised is not None:
         # every input of this scenario is valid: the only way to fail is an attempted write into the caller's
         # (read-only) arrays - the write sanitizer turned the mutation into an exception
         ctx.evaluated(case, nontrivial=True)
